@@ -137,7 +137,7 @@ def labels_for(problem):
     if problem.get("ulp") and any(len({(problem["energy"][i], problem["eimag"][i]) for i in s_}) < len(s_) for s_ in st_):
         labs.append("almost-equal-levels")
     if "form" in problem:
-        labs.append("form=" + problem["form"])
+        labs.append("form=" + (problem["form"] if problem["form"] != "symmatrix" or problem["repr"] == "sympy" else "indices"))
         if problem["repr"] == "sparse":
             labs.append("sparse=" + ("spmatrix" if problem.get("spmatrix") else "sparray"))
     if any(len({(problem["energy"][i], problem["eimag"][i]) for i in s}) < len(s) for s in st_):
